@@ -875,7 +875,7 @@ func TestReplay(t *testing.T) {
 	if err != nil {
 		t.Fatal(err)
 	}
-	if ev.ReplayFuzz(t, rf, fuzzProps, nil) {
+	if ev.ReplayFuzz(t, rf, fuzzProps, fuzzRaw) {
 		return
 	}
 	var c Case
